@@ -116,9 +116,13 @@ def _configs(tier):
         for m in range(1 << (1 << w)):
             A({'block': 'SumOfMinterms', 'w': w, 'minterms': '+'.join(str(i) for i in range(1 << w) if (m >> i) & 1)})
     for w in range(1, 5 if T else 4):
-        for v in range(1 << w):
+        # negative constants denote their two's-complement pattern (the convention of Wire.put and Constant)
+        for v in list(range(1 << w)) + [-1, -(1 << (w - 1))] + ([-2] if w > 1 else []):
             A({'block': 'EqualConstant', 'w': w, 'v': v})
             A({'block': 'NotEqualConstant', 'w': w, 'v': v})
+    for n in range(2, 5 if T else 4):
+        for v in (-1, -(1 << (n - 1))):
+            A({'block': 'Minterm', 'n': n, 'value': v})
     # comparators
     mixed_all = [(a, b) for a in W3 for b in W3 if a != b]
     mixed_few = [(1, 2), (2, 1)] + ([(2, 3), (3, 1)] if T else [])
